@@ -98,6 +98,7 @@ THEOREMS = [
     "OllamaVerif.C06.reserve_inv",
     "OllamaVerif.C06.reserve_covers",
     "OllamaVerif.C06.reserve_mask_exact",
+    "OllamaVerif.Tie.C06.variant_is_all_fixed",
     "OllamaVerif.Tie.C06.mask_table",
     "OllamaVerif.Tie.C06.evict_table",
     "OllamaVerif.Tie.C06.remove_table",
@@ -277,7 +278,7 @@ def run(ctx):
         ctx.coverage["repairs_missing_in_tree"] = lost
         for b in BIT_NAMES:
             if (VARIANT & b) and not (variant & b):
-                ctx.violation("repair-missing", getattr(ctx, "witness", {}).get(b, ""),
+                ctx.violation("variant-regression", getattr(ctx, "witness", {}).get(b, ""),
                               f"the tree no longer carries the repair of {BIT_NAMES[b]}: the real code, run on this "
                               f"witness history by TestVerifC06Probe, shows the pinned (defective) behaviour")
     env = {"VERIF_N": ctx.scale(2500, 60000), "VERIF_EXH_DEPTH": ctx.scale(3, 5),
